@@ -299,7 +299,18 @@ def make_harness(P):
                 res = o @ a
             elif op == "contract":
                 a.compress_config = CompressConfig(CompressCriteria.fixed, max_bonddim=8)
-                res = o.contract(a)
+                try:
+                    res = o.contract(a)
+                except ValueError as ex:
+                    if "Invalid quantum number" not in str(ex):
+                        raise
+                    # the canonicalise/compress inside contract() finds no allowed block: legitimate only when O|a> is the zero vector (e.g. a creation operator on an
+                    # occupied site for these particular values); the operands must still be untouched
+                    ref0 = lib.dense_of(o).dot(snaps[0]["dense"])
+                    ctx.check("contract raises 'Invalid quantum number' only when the product is the zero vector", ctx.eq(ref0, 0))
+                    for x, s_, nm in zip(operands, snaps, ("a", "b", "o")):
+                        ctx.check("contract (zero product): operand %s unchanged" % nm, unchanged(ctx, x, s_))
+                    return
             elif op == "conj_trans":
                 res = o.conj_trans()
             elif op == "mpo_apply_mpo":
